@@ -335,6 +335,9 @@ def gen_case(r, fl=None):
         s = gen_ref_context(r, fl != "h")
     else:
         s = (gen_html(r) if fl == "h" else gen_xml(r)) if k < 0.85 else gen_junk(r)
+    if len(s) > 1 and r.random() < 0.15:
+        # end of input in the middle of a construct (EOF handling of every state, also with a scripted sink)
+        s = s[:r.randrange(1, len(s))]
     chunks = r.choice(chunkings(r, s, 2))
     if fl == "h":
         st = r.choice(HTML_STATES)
